@@ -126,7 +126,12 @@ func (vc *VC) evalIdent(s *State, id *ast.Ident) *Term {
 				}
 				if _, known := vc.prog.GlobalInfo[o]; known {
 					// never assigned after initialisation: a constant of the run (its value is whatever the initialiser computed)
-					return vc.loaded(s, o.Type(), Const(smtName(vc.globalName(o))+".const", sortOf(o.Type())), o.Name())
+					c := Const(smtName(vc.globalName(o))+".const", sortOf(o.Type()))
+					if isErrorCtor(vc.prog.GlobalInit[o], vc.prog.GlobalInfo[o].TypesInfo) {
+						// initialised with errors.New / fmt.Errorf and never assigned: non-nil for the whole run
+						s.assume(Not(Eq(c, IntLit(0))))
+					}
+					return vc.loaded(s, o.Type(), c, o.Name())
 				}
 			}
 			return vc.loaded(s, o.Type(), vc.heapArr(s, vc.globalName(o), sortOf(o.Type())), o.Name())
@@ -928,4 +933,22 @@ func (vc *VC) constMapLookup(s *State, x *ast.IndexExpr, mt *types.Map) (v, ok *
 	}
 	vc.prog.Assumed["package-level map "+o.Pkg().Name()+"."+o.Name()+" is a constant table (never assigned or written in the module; checked syntactically)"] = true
 	return s.name("tbl", v), ok, true
+}
+
+// isErrorCtor: e is a call of errors.New or fmt.Errorf.
+func isErrorCtor(e ast.Expr, info *types.Info) bool {
+	call, ok := ast.Unparen(e).(*ast.CallExpr)
+	if !ok || info == nil {
+		return false
+	}
+	sel, ok := call.Fun.(*ast.SelectorExpr)
+	if !ok {
+		return false
+	}
+	fn, ok := info.ObjectOf(sel.Sel).(*types.Func)
+	if !ok || fn.Pkg() == nil {
+		return false
+	}
+	k := fn.Pkg().Path() + "." + fn.Name()
+	return k == "errors.New" || k == "fmt.Errorf"
 }
